@@ -150,9 +150,10 @@ static void dump_rr(long k, const ares_dns_rr_t *rr)
 /* parse + dump; the record is handed to the caller when keep != NULL */
 static ares_status_t dump_record_keep(long k, const unsigned char *msg, size_t len, ares_dns_record_t **keep)
 {
-  ares_dns_record_t *rec = NULL;
+  ares_dns_record_t *rec = SENT; /* out-parameter poison: must not be read or freed by the library */
   ares_status_t      st  = ares_dns_parse(msg, len, 0, &rec);
   size_t             i, n;
+  if (rec == SENT) rec = NULL;
   printf("%ld P %d\n", k, (int)st);
   if (keep) *keep = NULL;
   if (st != ARES_SUCCESS) return st;
